@@ -206,7 +206,6 @@ def run(ctx):
         m_can = W.canon_labels(mf[0], n0)
         osx = W.parse(odump)
         csx = W.parse(c_can)
-        clone_info[idx] = (osx, m_can)
         nobj = len(W.walk(csx))
         b = "1" if nobj == 1 else "2-5" if nobj <= 5 else "6-20" if nobj <= 20 else "21+"
         hist["objects_in_clone"][b] = hist["objects_in_clone"].get(b, 0) + 1
@@ -225,14 +224,9 @@ def run(ctx):
             hist["models_with_imports"] += 1
         if len(imps) != len(set(imps)):
             hist["shared_isrc_in_target"] += 1
-        # ---- correspondence: library clone = model clone, object for object
-        if c_can != m_can:
-            why = explain(ctx, mdl, c, c_can, "c%d" % idx) if nviol[0] < 6 else []
-            viol("clone differs from the model's clone", c, {"impl_clone": c_can, "model_clone": m_can,
-                                                                "model_flag_settings_that_reproduce_the_library": why})
-            continue
+        mismatch = c_can != m_can
         # ---- Coq content_* (printed by the model driver) = python mirror of it on the same dump
-        if W.parse_model_content(mf[2]) != W.content(W.parse(m_can)) or W.parse_model_content(mf[1]) != W.content(osx):
+        if not mismatch and (W.parse_model_content(mf[2]) != W.content(W.parse(m_can)) or W.parse_model_content(mf[1]) != W.content(osx)):
             viol("HARNESS: python content() differs from CloneDefs.content_*", c, {"coq": mf[1:3]})
             continue
         # ---- oracle on the library's own output
@@ -277,6 +271,16 @@ def run(ctx):
                 pass
             else:
                 probs.append("equals() is %s" % fl[0])
+        probs = list(dict.fromkeys(probs))
+        # ---- correspondence: library clone = model clone, object for object
+        if mismatch:
+            why = explain(ctx, mdl, c, c_can, "c%d" % idx) if nviol[0] < 6 else []
+            viol("clone differs from the model's clone" + ("; oracle on the library: " + "; ".join(probs) if probs else
+                                                           "; the property's oracle sees no difference"), c,
+                 {"impl_clone": c_can, "model_clone": m_can, "model_flag_settings_that_reproduce_the_library": why,
+                  "oracle_problems": probs})
+            continue
+        clone_info[idx] = (osx, m_can)
         if probs:
             # classes of the repairs that are switched off
             if not fx["isrc"] and all(p.startswith("clone shares objects") for p in probs) and \
